@@ -275,8 +275,14 @@ def flags_rule(chk, prog, mset):
                 for cond, outcome, br in f.guards_at(c.bb):
                     if cond.is_inst and cond.op == "icmp" and cond.pred in ("eq", "ne"):
                         k = [o for o in cond.ops if o.is_const and o.is_int and o.uval == 0o120000]
-                        msk = any(x.is_inst and x.op == "and" and any(y.is_const and y.is_int and y.uval == 0o170000
-                                                                      for y in x.ops) for x in backward_slice(cond))
+                        other = [o for o in cond.ops if not o.is_const]
+                        msk = False
+                        if other and other[0].is_inst and other[0].op == "and":
+                            a = other[0]
+                            m = [y for y in a.ops if y.is_const and y.is_int and y.uval == 0o170000]
+                            v = [y for y in a.ops if not y.is_const]
+                            if m and v and _is_raw_inode_mode(v[0]):
+                                msk = True
                         if k and msk and outcome == (cond.pred == "ne"):
                             ok = True
                 if ok:
@@ -289,6 +295,70 @@ def flags_rule(chk, prog, mset):
                               "%s follows symlinks; the unpacker must use the non-following variant" % name)
             elif name == "lsetxattr":
                 chk.ok("K12-flags", "%s:lsetxattr" % f.name, c, "xattrs are set without following symlinks")
+
+
+def _is_raw_inode_mode(v):
+    """v is the inode's mode field as loaded (only widened/narrowed above 16 bits), not a masked copy"""
+    for _ in range(6):
+        if v.is_inst and v.op in ("zext", "sext"):
+            v = v.ops[0]
+            continue
+        if v.is_inst and v.op == "trunc" and v.ty in ("i16", "i32"):
+            v = v.ops[0]
+            continue
+        break
+    if v.is_inst and v.op == "load":
+        p = strip_casts(v.ops[0])
+        if p.is_inst and p.op == "getelementptr":
+            fl = p.fields()
+            return bool(fl) and fl[-1][1] == "mode" and fl[-1][0].startswith("struct.sqfs_inode_t")
+    return False
+
+
+STR_COMPARES = {"strcmp", "strcasecmp", "strncmp", "strncasecmp", "strcoll", "memcmp", "strverscmp"}
+
+
+def name_comparisons(prog, f):
+    """string-comparison externals applied to two tree-node names in f"""
+    out = []
+    for c in f.calls():
+        n = norm_callee(c.callee)
+        if n not in STR_COMPARES or len(c.ops) < 2:
+            continue
+        names = 0
+        for a in c.ops[:2]:
+            if any(x.is_inst and x.op == "getelementptr" and x.fields() and x.fields()[-1][1] == "name" and
+                   x.fields()[-1][0].startswith(NODE) for x in backward_slice(a)):
+                names += 1
+        if names == 2:
+            out.append((n, c))
+    return out
+
+
+def sort_agrees_with_dupcheck(chk, prog, dups):
+    """the duplicate test compares *adjacent* entries, so it is only complete if the sort that precedes it orders
+    by the very comparison whose equality it tests"""
+    for F in dups:
+        eq = {n for (n, c) in name_comparisons(prog, F)}
+        reach, _, _ = prog.reachable_from([F], stop=lambda g: g.unit is not F.unit)
+        n = 0
+        for g in reach:
+            if g is F:
+                continue
+            for (nm, c) in name_comparisons(prog, g):
+                n += 1
+                inst = "%s:%s" % (g.name, nm)
+                if nm in eq:
+                    chk.ok("K2-sortkey", inst, c, "the sort orders sibling names with %s, the comparison whose equality the "
+                           "duplicate test in %s checks" % (nm, F.name))
+                else:
+                    chk.violation("K2-sortkey", inst, c,
+                                  "siblings are ordered with %s but %s tests adjacent entries with %s: equal names need not "
+                                  "be adjacent, so a symlink and a same-named directory can both pass the duplicate check"
+                                  % (nm, F.name, "/".join(sorted(eq)) or "nothing"))
+        if n == 0:
+            chk.violation("K2-sortkey", "%s:no-sort" % F.name, F, "no ordering comparison of sibling names precedes the "
+                          "adjacent-duplicate test")
 
 
 def find_dup_check(prog):
@@ -345,6 +415,7 @@ def ordering_rule(chk, prog, mset):
         chk.violation("K1-order", "duplicate-check", main, "no function rejecting duplicate sibling names was found in the "
                       "unpacker: a symlink followed by a same-named directory lets files be written through the link")
         return
+    sort_agrees_with_dupcheck(chk, prog, dups)
     dup_calls = [c for c in main.calls() if prog.fn(c.callee or "", main.unit) in dups]
     mcalls = []
     for c in main.calls():
